@@ -21,7 +21,7 @@ use std::{
 use mahf::{
     components::{
         boundary::{CompleteOneTailedNormalCorrection, Mirror, Saturation, Toroidal},
-        initialization::{Empty, RandomBitstring, RandomPermutation, RandomSpread},
+        initialization::{functional, Empty, Initialization, RandomBitstring, RandomPermutation, RandomSpread},
     },
     state::common::Populations,
     Component, Individual, Problem, Random, State,
@@ -47,8 +47,121 @@ const DYADIC: [(f64, f64); 4] = [(-1.0, 1.0), (0.0, 4.0), (-4.0, 12.0), (0.5, 0.
 const OTHER: [(f64, f64); 7] =
     [(0.1, 0.3), (-5.12, 5.12), (1e-3, 1e3), (-1e6, -1e5), (-0.3, 0.7), (100.0, 100.5), (-1e-7, 3e-7)];
 
+/// More domains of that kind, for heterogeneous domain lists of a given SHAPE: a common lower
+/// bound with different upper bounds (positive and negative), a common upper bound with different
+/// lower bounds, ranges below zero / across zero, width ratios from 1/16 to 16.
+const DYADIC_MORE: [(f64, f64); 16] = [
+    (0.0, 1.0),
+    (0.0, 0.5),
+    (0.0, 2.0),
+    (0.0, 8.0),
+    (-4.0, 0.0),
+    (-1.0, 0.0),
+    (-0.5, 0.0),
+    (-2.0, 0.0),
+    (-4.0, -2.0),
+    (-4.0, -3.0),
+    (-4.0, -3.5),
+    (-4.0, 4.0),
+    (-8.0, 8.0),
+    (-0.25, 0.25),
+    (-2.0, 2.0),
+    (-4.0, -3.75),
+];
+
 fn is_dyadic(d: (f64, f64)) -> bool {
-    DYADIC.iter().any(|x| x.0.to_bits() == d.0.to_bits() && x.1.to_bits() == d.1.to_bits())
+    DYADIC.iter().chain(DYADIC_MORE.iter()).any(|x| x.0.to_bits() == d.0.to_bits() && x.1.to_bits() == d.1.to_bits())
+}
+
+/// Families of domain lists (`dim >= 1` dimensions), by the relation between the dimensions.
+const SHAPES: [&str; 8] = ["indep", "eq_lo", "eq_hi", "narrowing", "widening", "signs", "homog", "dyadic"];
+
+/// A domain list of family `shape`.  Width ratios between the dimensions reach from 1e-3 to 1e3.
+///  indep     every dimension drawn independently from the fixed tables
+///  eq_lo     one lower bound for all, upper bounds differ (the first is the widest, the
+///            narrowest, or anything)
+///  eq_hi     one upper bound for all, lower bounds differ
+///  narrowing every later dimension is strictly inside the first / the previous one
+///  widening  ... strictly contains the previous one
+///  signs     ranges below zero, across zero and above zero mixed, bounds of both signs
+///  homog     the same range in every dimension
+///  dyadic    shaped lists over dyadic ranges (the lattice projection applies)
+fn shaped_domain(rng: &mut ChaCha8Rng, shape: &str, dim: usize) -> Vec<(f64, f64)> {
+    const RATIOS: [f64; 11] = [1e-3, 0.01, 0.1, 0.25, 0.5, 1.0, 2.0, 4.0, 10.0, 100.0, 1e3];
+    const ANCHORS: [f64; 9] = [0.0, 0.0, -5.0, 3.0, -1e-3, 100.0, -0.3, 1e3, -1e4];
+    let table = |rng: &mut ChaCha8Rng| {
+        if rng.gen_bool(0.4) {
+            *DYADIC.choose(rng).unwrap()
+        } else {
+            *OTHER.choose(rng).unwrap()
+        }
+    };
+    if dim == 0 {
+        return Vec::new();
+    }
+    // widths: a base width times one ratio per dimension, in the order `order`
+    let widths = |rng: &mut ChaCha8Rng| -> Vec<f64> {
+        let base = *[1.0, 0.1, 7.5, 1e-3, 40.0].choose(rng).unwrap();
+        let mut w: Vec<f64> = (0..dim).map(|_| base * *RATIOS.choose(rng).unwrap()).collect();
+        match rng.gen_range(0..4) {
+            0 => w.sort_by(|a, b| b.total_cmp(a)), // the first is the widest
+            1 => w.sort_by(|a, b| a.total_cmp(b)), // the first is the narrowest
+            _ => {}
+        }
+        w
+    };
+    match shape {
+        "eq_lo" => {
+            let lo = *ANCHORS.choose(rng).unwrap();
+            widths(rng).into_iter().map(|w| (lo, lo + w)).collect()
+        }
+        "eq_hi" => {
+            let hi = *ANCHORS.choose(rng).unwrap();
+            widths(rng).into_iter().map(|w| (hi - w, hi)).collect()
+        }
+        "narrowing" | "widening" => {
+            let (mut lo, mut hi) = table(rng);
+            let mut d = vec![(lo, hi)];
+            for _ in 1..dim {
+                let w = hi - lo;
+                let (a, b) = (rng.gen_range(0.0..0.4) * w, rng.gen_range(0.0..0.4) * w);
+                if shape == "narrowing" {
+                    lo += a;
+                    hi -= b;
+                } else {
+                    lo -= a * 5.0;
+                    hi += b * 5.0;
+                }
+                d.push((lo, hi));
+            }
+            d
+        }
+        "signs" => (0..dim)
+            .map(|_| {
+                let (a, b) = (rng.gen_range(0.001..50.0f64), rng.gen_range(0.001..50.0f64));
+                match rng.gen_range(0..4) {
+                    0 => (-a - b, -a),  // below zero
+                    1 => (-a, b),       // across zero
+                    2 => (-a, 0.0),     // up to zero
+                    _ => (a, a + b),    // above zero
+                }
+            })
+            .collect(),
+        "homog" => vec![table(rng); dim],
+        "dyadic" => {
+            let lists: [&[(f64, f64)]; 5] = [
+                &[(0.0, 4.0), (0.0, 1.0), (0.0, 0.5), (0.0, 2.0), (0.0, 8.0)],
+                &[(-4.0, 0.0), (-1.0, 0.0), (-0.5, 0.0), (-2.0, 0.0)],
+                &[(-4.0, -2.0), (-4.0, -3.0), (-4.0, -3.5), (-4.0, 4.0), (-4.0, 12.0), (-4.0, -3.75)],
+                &[(-8.0, 8.0), (-4.0, 4.0), (-2.0, 2.0), (-1.0, 1.0), (-0.25, 0.25)],
+                &[(-1.0, 1.0), (-1.0, 0.0), (-4.0, -2.0), (0.5, 0.75), (0.0, 0.5)],
+            ];
+            let l = *lists.choose(rng).unwrap();
+            let start = rng.gen_range(0..l.len());
+            (0..dim).map(|j| l[(start + j) % l.len()]).collect()
+        }
+        _ => (0..dim).map(|_| table(rng)).collect(),
+    }
 }
 
 // ------------------------------------------------------------------------------------------------
@@ -114,7 +227,13 @@ fn project_real(lo: f64, hi: f64, lattice: bool, x: f64) -> Value {
 trait Proj: Problem + Clone + Send + Sync + 'static {
     fn project(&self, sol: &Self::Encoding) -> Vec<Value>;
     fn bits(sol: &Self::Encoding) -> Vec<u64>;
-    fn component(&self, op: &str, n: u32, prob: f64) -> Option<Box<dyn Component<Self>>>;
+    /// the component built through the public constructor `via` ("new" | "from_params" |
+    /// "new_uniform"), None if there is no such constructor for `op`
+    fn component(&self, op: &str, via: &str, n: u32, prob: f64) -> Option<Box<dyn Component<Self>>>;
+    /// the solutions of an initialiser obtained without `Component::execute`: `via` =
+    /// "initialize" (`Initialization::initialize` of the component) or "functional" (the public
+    /// generator function behind it)
+    fn init_direct(&self, op: &str, via: &str, n: u32, prob: f64, rng: &mut Random) -> Option<Vec<Self::Encoding>>;
     /// concrete solution for an abstract prepared individual (replay) or raw bits (random mode)
     fn concretize(&self, abstract_x: &[Value], raw: Option<&Vec<Value>>) -> Self::Encoding;
     /// some legal objective value for a prepared, already evaluated individual
@@ -137,16 +256,29 @@ impl Proj for RealProblem {
     fn bits(sol: &Vec<f64>) -> Vec<u64> {
         sol.iter().map(|x| x.to_bits()).collect()
     }
-    fn component(&self, op: &str, n: u32, _prob: f64) -> Option<Box<dyn Component<Self>>> {
-        Some(match op {
-            "saturation" => Saturation::new::<Self>(),
-            "toroidal" => Toroidal::new::<Self>(),
-            "mirror" => Mirror::new::<Self>(),
-            "cotnc" => CompleteOneTailedNormalCorrection::new::<Self>(),
-            "empty" => Empty::new::<Self>(),
-            "random_spread" => RandomSpread::new::<Self, f64>(n),
+    fn component(&self, op: &str, via: &str, n: u32, _prob: f64) -> Option<Box<dyn Component<Self>>> {
+        Some(match (op, via) {
+            ("saturation", "new") => Saturation::new::<Self>(),
+            ("saturation", "from_params") => Box::new(Saturation::from_params()),
+            ("toroidal", "new") => Toroidal::new::<Self>(),
+            ("toroidal", "from_params") => Box::new(Toroidal::from_params()),
+            ("mirror", "new") => Mirror::new::<Self>(),
+            ("mirror", "from_params") => Box::new(Mirror::from_params()),
+            ("cotnc", "new") => CompleteOneTailedNormalCorrection::new::<Self>(),
+            ("cotnc", "from_params") => Box::new(CompleteOneTailedNormalCorrection::from_params()),
+            ("empty", "new") => Empty::new::<Self>(),
+            ("empty", "from_params") => Box::new(Empty::from_params()),
+            ("random_spread", "new") => RandomSpread::new::<Self, f64>(n),
+            ("random_spread", "from_params") => Box::new(RandomSpread::from_params(n)),
             _ => return None,
         })
+    }
+    fn init_direct(&self, op: &str, via: &str, n: u32, _prob: f64, rng: &mut Random) -> Option<Vec<Vec<f64>>> {
+        match (op, via) {
+            ("random_spread", "initialize") => Some(RandomSpread::from_params(n).initialize(self, rng)),
+            ("random_spread", "functional") => Some(functional::random_spread(&self.domain, n as usize, rng)),
+            _ => None,
+        }
     }
     fn concretize(&self, abstract_x: &[Value], raw: Option<&Vec<Value>>) -> Vec<f64> {
         if let Some(raw) = raw {
@@ -188,12 +320,21 @@ impl Proj for PermProblem {
     fn bits(sol: &Vec<usize>) -> Vec<u64> {
         sol.iter().map(|x| *x as u64).collect()
     }
-    fn component(&self, op: &str, n: u32, _prob: f64) -> Option<Box<dyn Component<Self>>> {
-        Some(match op {
-            "empty" => Empty::new::<Self>(),
-            "random_permutation" => RandomPermutation::new::<Self>(n),
+    fn component(&self, op: &str, via: &str, n: u32, _prob: f64) -> Option<Box<dyn Component<Self>>> {
+        Some(match (op, via) {
+            ("empty", "new") => Empty::new::<Self>(),
+            ("empty", "from_params") => Box::new(Empty::from_params()),
+            ("random_permutation", "new") => RandomPermutation::new::<Self>(n),
+            ("random_permutation", "from_params") => Box::new(RandomPermutation::from_params(n)),
             _ => return None,
         })
+    }
+    fn init_direct(&self, op: &str, via: &str, n: u32, _prob: f64, rng: &mut Random) -> Option<Vec<Vec<usize>>> {
+        match (op, via) {
+            ("random_permutation", "initialize") => Some(RandomPermutation::from_params(n).initialize(self, rng)),
+            ("random_permutation", "functional") => Some(functional::random_permutation(self.dim, n as usize, rng)),
+            _ => None,
+        }
     }
     fn concretize(&self, _abstract_x: &[Value], _raw: Option<&Vec<Value>>) -> Vec<usize> {
         unreachable!("prepared populations exist for real-valued problems only")
@@ -210,12 +351,23 @@ impl Proj for BitProblem {
     fn bits(sol: &Vec<bool>) -> Vec<u64> {
         sol.iter().map(|x| *x as u64).collect()
     }
-    fn component(&self, op: &str, n: u32, prob: f64) -> Option<Box<dyn Component<Self>>> {
-        Some(match op {
-            "empty" => Empty::new::<Self>(),
-            "random_bitstring" => RandomBitstring::new::<Self>(n, prob),
+    fn component(&self, op: &str, via: &str, n: u32, prob: f64) -> Option<Box<dyn Component<Self>>> {
+        Some(match (op, via) {
+            ("empty", "new") => Empty::new::<Self>(),
+            ("empty", "from_params") => Box::new(Empty::from_params()),
+            ("random_bitstring", "new") => RandomBitstring::new::<Self>(n, prob),
+            ("random_bitstring", "from_params") => Box::new(RandomBitstring::from_params(n, prob)),
+            // the convenience constructor for fair bits (takes no probability)
+            ("random_bitstring", "new_uniform") => RandomBitstring::new_uniform::<Self>(n),
             _ => return None,
         })
+    }
+    fn init_direct(&self, op: &str, via: &str, n: u32, prob: f64, rng: &mut Random) -> Option<Vec<Vec<bool>>> {
+        match (op, via) {
+            ("random_bitstring", "initialize") => Some(RandomBitstring::from_params(n, prob).initialize(self, rng)),
+            ("random_bitstring", "functional") => Some(functional::random_bitstring(self.dim, prob, n as usize, rng)),
+            _ => None,
+        }
     }
     fn concretize(&self, _abstract_x: &[Value], _raw: Option<&Vec<Value>>) -> Vec<bool> {
         unreachable!("prepared populations exist for real-valued problems only")
@@ -297,16 +449,41 @@ fn worker<P: Proj>(problem: P, run: u64, kind: String, acts: Vec<Value>, seed: u
             k = "ok";
         } else {
             let prob = a.get("prob").and_then(|x| x.as_f64()).unwrap_or(0.5);
+            let via = a.get("via").and_then(|x| x.as_str()).unwrap_or("new");
             let size = if n == NON { 0 } else { n as u32 };
-            match problem.component(&op, size, prob) {
+            // the component through one of its constructors, or the solutions straight from
+            // `Initialization::initialize` / the generator function (pushed as the driver of
+            // src/components/initialization/mod.rs does: unevaluated individuals, one population)
+            let direct = matches!(via, "initialize" | "functional");
+            let comp = if direct { None } else { problem.component(&op, via, size, prob) };
+            let runner: Option<Box<dyn FnOnce(&mut State<P>) -> mahf::ExecResult<()> + '_>> = if direct {
+                let problem = &problem;
+                let op = op.clone();
+                Some(Box::new(move |state: &mut State<P>| {
+                    let sols = {
+                        let mut rng = state.random_mut();
+                        problem.init_direct(&op, via, size, prob, &mut rng)
+                    };
+                    let sols = sols.ok_or_else(|| eyre::eyre!("unsupported"))?;
+                    state.populations_mut().push(sols.into_iter().map(Individual::new_unevaluated).collect());
+                    Ok(())
+                }))
+            } else {
+                let problem = &problem;
+                comp.map(|c| -> Box<dyn FnOnce(&mut State<P>) -> mahf::ExecResult<()> + '_> {
+                    Box::new(move |state: &mut State<P>| {
+                        c.init(problem, state)?;
+                        c.require(problem, &state.requirements())?;
+                        c.execute(problem, state)
+                    })
+                })
+            };
+            match runner {
                 None => k = "unsupported",
-                Some(c) => {
+                Some(run_it) => {
                     let before = top_bits(&state);
-                    let out = caught(|| {
-                        c.init(&problem, &mut state)?;
-                        c.require(&problem, &state.requirements())?;
-                        c.execute(&problem, &mut state)
-                    });
+                    let st = &mut state;
+                    let out = caught(move || run_it(st));
                     k = match out {
                         Ok(Ok(())) => "ok",
                         Ok(Err(_)) => "err",
@@ -336,7 +513,13 @@ fn worker<P: Proj>(problem: P, run: u64, kind: String, acts: Vec<Value>, seed: u
             }
         }
         let stack = project_stack(&problem, &state);
-        let rec = json!({"run": run, "i": i, "kind": kind, "act": clean_act(a, p), "res": {"k": k, "u": u}, "stack": stack});
+        let mut rec = json!({"run": run, "i": i, "kind": kind, "act": clean_act(a, p), "res": {"k": k, "u": u}, "stack": stack});
+        // which constructor / entry point was used and with which probability: for the coverage
+        // accounting of the check (the spec judges the outcome whatever the way)
+        if let Some(v) = a.get("via") {
+            rec["via"] = v.clone();
+            rec["prob"] = json!(a.get("prob").and_then(|x| x.as_f64()).map(|x| format!("{x:?}")).unwrap_or_default());
+        }
         if tx.send(Msg::Event(rec, stack.clone())).is_err() {
             return;
         }
@@ -434,14 +617,19 @@ fn random_coordinate(rng: &mut ChaCha8Rng, lo: f64, hi: f64) -> f64 {
 fn random_real_run(run: u64, seed: u64, rng: &mut ChaCha8Rng) -> RunSpec {
     let dim = *[1usize, 1, 2, 3, 4, 5, 0].choose(rng).unwrap();
     let all_dyadic = rng.gen_bool(0.4);
-    let dom: Vec<(f64, f64)> = (0..dim)
-        .map(|_| if all_dyadic || rng.gen_bool(0.3) { *DYADIC.choose(rng).unwrap() } else { *OTHER.choose(rng).unwrap() })
-        .collect();
+    // every second run on a domain list of a given shape (round robin over the families)
+    let dom: Vec<(f64, f64)> = if run % 2 == 1 {
+        shaped_domain(rng, SHAPES[(run as usize / 2) % SHAPES.len()], dim)
+    } else {
+        (0..dim)
+            .map(|_| if all_dyadic || rng.gen_bool(0.3) { *DYADIC.choose(rng).unwrap() } else { *OTHER.choose(rng).unwrap() })
+            .collect()
+    };
     let n = rng.gen_range(0..=4usize);
     let raw: Vec<Vec<f64>> = (0..n).map(|_| dom.iter().map(|d| random_coordinate(rng, d.0, d.1)).collect()).collect();
     let mut acts = Vec::new();
     if rng.gen_bool(0.2) {
-        acts.push(json!({"op": "random_spread", "n": rng.gen_range(0..=6), "p": []}));
+        acts.push(json!({"op": "random_spread", "n": rng.gen_range(0..=6), "p": [], "via": *INIT_VIAS.choose(rng).unwrap()}));
     }
     acts.push(json!({"op": "set_pop", "n": NON,
         "p": raw.iter().map(|ind| json!({"ev": rng.gen_range(0..2), "x": ind.iter().map(|_| coord("raw", NOK)).collect::<Vec<_>>()})).collect::<Vec<_>>(),
@@ -449,41 +637,121 @@ fn random_real_run(run: u64, seed: u64, rng: &mut ChaCha8Rng) -> RunSpec {
     let ops = ["saturation", "toroidal", "mirror", "cotnc"];
     for _ in 0..rng.gen_range(1..=3) {
         let op = *ops.choose(rng).unwrap();
-        acts.push(json!({"op": op, "n": NON, "p": []}));
+        let via = *["new", "new", "from_params"].choose(rng).unwrap();
+        acts.push(json!({"op": op, "n": NON, "p": [], "via": via}));
         if rng.gen_bool(0.5) {
-            acts.push(json!({"op": op, "n": NON, "p": []})); // again: idempotence
+            acts.push(json!({"op": op, "n": NON, "p": [], "via": via})); // again: idempotence
         }
     }
     if rng.gen_bool(0.2) {
-        acts.push(json!({"op": "random_spread", "n": rng.gen_range(0..=6), "p": []}));
+        acts.push(json!({"op": "random_spread", "n": rng.gen_range(0..=6), "p": [], "via": *INIT_VIAS.choose(rng).unwrap()}));
         acts.push(json!({"op": *ops.choose(rng).unwrap(), "n": NON, "p": []}));
     }
     RunSpec { run, kind: "real".into(), dom, dim, acts, seed }
 }
 
-fn random_init_run(run: u64, seed: u64, rng: &mut ChaCha8Rng) -> RunSpec {
-    let kind = *["real", "perm", "bits"].choose(rng).unwrap();
-    let dim = if rng.gen_bool(0.2) { *[0usize, 1, 20].choose(rng).unwrap() } else { rng.gen_range(0..=20) };
-    let dom: Vec<(f64, f64)> = if kind == "real" {
-        (0..dim).map(|_| if rng.gen_bool(0.5) { *DYADIC.choose(rng).unwrap() } else { *OTHER.choose(rng).unwrap() }).collect()
-    } else {
-        Vec::new()
-    };
-    let op = match kind {
+/// Ways to obtain the solutions of an initialiser: the component built by `new` / `from_params`
+/// and executed, `Initialization::initialize` of the component, the public generator function.
+const INIT_VIAS: [&str; 4] = ["new", "from_params", "initialize", "functional"];
+/// Dimensions around word sizes and powers of two.
+const WORD_DIMS: [usize; 14] = [0, 1, 2, 31, 32, 33, 63, 64, 65, 127, 128, 129, 192, 256];
+/// Probabilities of a 1: never, always, exactly one half, ordinary, next to the ends, tiny.
+const PROBS: [f64; 9] = [0.0, 1.0, 0.5, 0.5, 0.1, 0.9, 0.25, 1e-300, 0.999_999_999];
+
+fn init_op(kind: &str) -> &'static str {
+    match kind {
         "real" => "random_spread",
         "perm" => "random_permutation",
         _ => "random_bitstring",
+    }
+}
+
+fn random_init_run(run: u64, seed: u64, rng: &mut ChaCha8Rng) -> RunSpec {
+    let kind = *["real", "perm", "bits"].choose(rng).unwrap();
+    let dim = match rng.gen_range(0..10) {
+        0 | 1 => *[0usize, 1, 20].choose(rng).unwrap(),
+        2 | 3 if kind != "real" => *WORD_DIMS.choose(rng).unwrap(),
+        _ => rng.gen_range(0..=20),
     };
+    let dom: Vec<(f64, f64)> =
+        if kind == "real" { shaped_domain(rng, SHAPES[run as usize % SHAPES.len()], dim) } else { Vec::new() };
+    let op = init_op(kind);
     let mut acts = Vec::new();
     for _ in 0..rng.gen_range(1..=2) {
-        let n = if rng.gen_bool(0.25) { *[0i64, 1, 50].choose(rng).unwrap() } else { rng.gen_range(0..=50) };
-        let prob = *[0.0, 0.5, 1.0, 0.1, 0.9].choose(rng).unwrap();
-        acts.push(json!({"op": op, "n": n, "p": [], "prob": prob}));
+        let nmax = if dim > 40 { 4 } else { 50 };
+        let n = if rng.gen_bool(0.25) { *[0i64, 1, nmax].choose(rng).unwrap() } else { rng.gen_range(0..=nmax) };
+        let prob = *PROBS.choose(rng).unwrap();
+        let via = if kind == "bits" && rng.gen_range(0..5) == 0 { "new_uniform" } else { *INIT_VIAS.choose(rng).unwrap() };
+        acts.push(json!({"op": op, "n": n, "p": [], "prob": prob, "via": via}));
         if rng.gen_bool(0.2) {
-            acts.push(json!({"op": "empty", "n": NON, "p": []}));
+            acts.push(json!({"op": "empty", "n": NON, "p": [], "via": *["new", "from_params"].choose(rng).unwrap()}));
         }
     }
     RunSpec { run, kind: kind.into(), dom, dim, acts, seed }
+}
+
+/// The systematic part of the random mode (`--grid 1`): every initialiser obtained in every way
+///  * bitstrings and permutations of every dimension of `WORD_DIMS` (bitstrings: with every
+///    probability of `PROBS` through every way that takes one, and through `new_uniform`),
+///  * real vectors on domain lists of every shape of `SHAPES` with 2, 3 and 6 dimensions (the
+///    list itself is seeded), each followed by every repair on a prepared population of the same
+///    domain list.
+fn grid_runs(first_run: u64, seed: u64) -> Vec<RunSpec> {
+    let mut runs = Vec::new();
+    let mut next = |kind: &str, dom: Vec<(f64, f64)>, dim: usize, acts: Vec<Value>| {
+        let run = first_run + runs.len() as u64;
+        runs.push(RunSpec { run, kind: kind.into(), dom, dim, acts, seed: seed.wrapping_mul(1_000_003).wrapping_add(run) });
+    };
+    for (di, &dim) in WORD_DIMS.iter().enumerate() {
+        let n = if dim > 40 { 2 } else { 3 };
+        // bitstrings: every probability x every way, two executions per run
+        for (pi, &prob) in PROBS.iter().enumerate() {
+            let acts: Vec<Value> = INIT_VIAS
+                .iter()
+                .map(|via| json!({"op": "random_bitstring", "n": n + (pi % 2) as i64, "p": [], "prob": prob, "via": via}))
+                .collect();
+            next("bits", Vec::new(), dim, acts);
+        }
+        next("bits", Vec::new(), dim, vec![
+            json!({"op": "random_bitstring", "n": n, "p": [], "prob": 0.5, "via": "new_uniform"}),
+            json!({"op": "random_bitstring", "n": 1, "p": [], "prob": 0.5, "via": "new_uniform"}),
+            json!({"op": "random_bitstring", "n": 0, "p": [], "prob": 0.5, "via": "new_uniform"}),
+        ]);
+        let acts: Vec<Value> =
+            INIT_VIAS.iter().map(|via| json!({"op": "random_permutation", "n": n, "p": [], "via": via})).collect();
+        next("perm", Vec::new(), dim, acts);
+        // real vectors of that dimension on a shaped domain list
+        let mut g = rng(seed, 900_000 + di as u64);
+        let dom = shaped_domain(&mut g, SHAPES[1 + di % (SHAPES.len() - 1)], dim);
+        let acts: Vec<Value> =
+            INIT_VIAS.iter().map(|via| json!({"op": "random_spread", "n": n, "p": [], "via": via})).collect();
+        next("real", dom, dim, acts);
+    }
+    for (si, shape) in SHAPES.iter().enumerate() {
+        for (k, &dim) in [2usize, 3, 6, 2].iter().enumerate() {
+            let mut g = rng(seed, 910_000 + (si * 10 + k) as u64);
+            let dom = shaped_domain(&mut g, shape, dim);
+            let acts: Vec<Value> = INIT_VIAS
+                .iter()
+                .map(|via| json!({"op": "random_spread", "n": 4 + k as i64, "p": [], "via": via}))
+                .collect();
+            next("real", dom.clone(), dim, acts);
+            // every repair (twice: idempotence) on a prepared population in the same domain list
+            for op in ["saturation", "toroidal", "mirror", "cotnc"] {
+                let raw: Vec<Vec<f64>> =
+                    (0..3).map(|_| dom.iter().map(|d| random_coordinate(&mut g, d.0, d.1)).collect()).collect();
+                let via = if k % 2 == 0 { "new" } else { "from_params" };
+                next("real", dom.clone(), dim, vec![
+                    json!({"op": "set_pop", "n": NON,
+                           "p": raw.iter().map(|ind| json!({"ev": 0, "x": ind.iter().map(|_| coord("raw", NOK)).collect::<Vec<_>>()})).collect::<Vec<_>>(),
+                           "raw": raw.iter().map(|ind| ind.iter().map(|x| fbits(*x)).collect::<Vec<_>>()).collect::<Vec<_>>()}),
+                    json!({"op": op, "n": NON, "p": [], "via": via}),
+                    json!({"op": op, "n": NON, "p": [], "via": via}),
+                ]);
+            }
+        }
+    }
+    runs
 }
 
 fn parse_domains(s: &str) -> Vec<(f64, f64)> {
@@ -503,16 +771,25 @@ pub fn main(args: &Args) -> usize {
     let max_timeouts = args.num("max-timeouts", MAX_TIMEOUTS as u64) as usize;
     match args.mode.as_str() {
         // scenarios {"run", "kind", "dim", "acts"}; a real-valued scenario is executed once per
-        // rotation of the domain list (dimension j lives in domain (j + rotation) mod len)
+        // rotation of the domain list (dimension j lives in domain (j + rotation) mod len);
+        // `--domains` may hold several lists separated by ';': all scenarios once per list
         "replay" => {
-            let doms = args.get("domains").map(parse_domains).unwrap_or_else(|| DYADIC.to_vec());
+            let lists: Vec<Vec<(f64, f64)>> = match args.get("domains") {
+                Some(t) => t.split(';').filter(|l| !l.is_empty()).map(parse_domains).collect(),
+                None => vec![DYADIC.to_vec()],
+            };
             let rot = args.num("rot", 1) as usize;
             let mut run = 0u64;
-            'outer: for sc in read_ndjson(&args.str("in")) {
+            let scenarios = read_ndjson(&args.str("in"));
+            'outer: for (li, doms) in lists.iter().enumerate() {
+              for sc in &scenarios {
                 let kind = sc["kind"].as_str().unwrap().to_string();
                 let dim = sc["dim"].as_u64().unwrap() as usize;
                 let acts = sc["acts"].as_array().unwrap().clone();
                 let fixed = sc.get("dom").and_then(|d| d.as_array());
+                if li > 0 && (kind != "real" || fixed.is_some()) {
+                    continue; // does not depend on the domain list: executed once
+                }
                 let rots = if kind == "real" && fixed.is_none() { rot } else { 1 };
                 for r in 0..rots {
                     let dom: Vec<(f64, f64)> = match (kind.as_str(), fixed) {
@@ -530,6 +807,7 @@ pub fn main(args: &Args) -> usize {
                     }
                     run += 1;
                 }
+              }
             }
         }
         "random" => {
@@ -543,6 +821,16 @@ pub fn main(args: &Args) -> usize {
                     timeouts += 1;
                     if timeouts >= max_timeouts {
                         break;
+                    }
+                }
+            }
+            if args.num("grid", 0) == 1 {
+                for spec in grid_runs(n_real + n_init, args.seed()) {
+                    if execute(spec, &mut out, watchdog) {
+                        timeouts += 1;
+                        if timeouts >= max_timeouts {
+                            break;
+                        }
                     }
                 }
             }
